@@ -851,11 +851,21 @@ func (doc *Document) removeRevisionBody(ctx context.Context, revID string) {
 }
 
 // makeBodyActive moves a previously non-winning revision body from the rev tree to the document body
-func (doc *Document) promoteNonWinningRevisionBody(ctx context.Context, revid string, loader RevLoaderFunc) {
+func (doc *Document) promoteNonWinningRevisionBody(ctx context.Context, revid string, loader RevLoaderFunc) error {
+	// A body stored outside the document must be loadable: promoting the revision without it would commit the
+	// revision with no body (and the external body document is deleted after the commit).
+	if info, ok := doc.History[revid]; ok && info.BodyKey != "" && info.Body == nil {
+		body, err := loader(ctx, info.BodyKey)
+		if err != nil {
+			return base.RedactErrorf("unable to load body of revision %s of doc %s for promotion: %v", revid, base.UD(doc.ID), err)
+		}
+		info.Body = body
+	}
 	// If the new revision is not current, transfer the current revision's
 	// body to the top level doc._body:
 	doc.UpdateBody(doc.getNonWinningRevisionBody(ctx, revid, loader))
 	doc.removeRevisionBody(ctx, revid)
+	return nil
 }
 
 func (doc *Document) pruneRevisions(ctx context.Context, maxDepth uint32, keepRev string) int {
